@@ -28,6 +28,13 @@ def rule_derive_list(rep, crate):
             rep.viol(rid, 'token-loop:%s' % f.name, v, loc(f))
         n += len([1 for _b, t in f.calls() if re.search(r'token_stream::IntoIter as std::iter::Iterator>::next$', f.callee_name(t))])
     rep.inst(rid, 'strip_attributes:token-loops', detail=n)
+    # every attribute / variant / field is visited: the loops of strip_attributes end only when their iterator is exhausted
+    from mirlib import early_loop_exits
+    ex = early_loop_exits(fn, r'(IterMut<.*> as std::iter::Iterator>::next|Iter<.*> as std::iter::Iterator>::next)$')
+    rep.inst(rid, 'strip_attributes:loops-exhaustive', detail=len(ex))
+    for h, e in ex:
+        rep.viol(rid, 'loop-left-early:strip_attributes', 'a loop of strip_attributes over attributes / variants / fields is left before its iterator is exhausted (break/return): later items are not processed', loc(fn, fn.blocks[e[0]]['term']['line']))
+        break
     # (ii) the chain
     qs = find_calls(fn, r'RepIteratorExt::quote_into_iter$|RepAsIteratorExt.*::quote_into_iter$')
     ok = False
